@@ -429,7 +429,10 @@ class OutdoorCrops:
                 )
 
             else:
-                crops_produced = np.array(self.NO_RELOCATION_KCALS_GROWN)
+                crops_produced = np.multiply(
+                    np.array(self.NO_RELOCATION_KCALS_GROWN),
+                    (1 - greenhouse_fraction_area),
+                )
 
         else:
             crops_produced = np.array([0] * self.NMONTHS)
